@@ -1125,15 +1125,21 @@ func reachableUnder(alts map[string]bool, sigma map[string]bool) bool {
 // only. A flag set in a loop and tested by the loop condition and again after the loop
 // (`failed = true` … `for … && !failed` … `if failed { return err }`) is thereby followed to the
 // return it selects. visit is called for every block entered (with the predecessor it was entered
-// from); ret for every Return reached, with the error kind of its error result on that path
+// from) and prunes the path by returning false; ret for every Return reached, with the error kind of its error result on that path
 // ("err", "ok" or "unknown").
-func flagWalk(fn *ssa.Function, from, to *ssa.BasicBlock, visit func(b, pred *ssa.BasicBlock), ret func(r *ssa.Return, kind string)) {
+func flagWalk(fn *ssa.Function, from, to *ssa.BasicBlock, visit func(b, pred *ssa.BasicBlock) bool, ret func(r *ssa.Return, kind string), nonNil ...ssa.Value) {
 	type state struct {
 		b, pred *ssa.BasicBlock
 		sig     string
 	}
 	seen := map[state]bool{}
 	errIdx := errResultIndex(fn)
+	// values known to be non-nil on the paths explored (an error just tested): carried through the
+	// φ-nodes they flow into, so that a later `if err != nil` on the merged variable is decided too
+	nn0 := map[ssa.Value]bool{}
+	for _, v := range nonNil {
+		nn0[v] = true
+	}
 	var walk func(b, pred *ssa.BasicBlock, known map[ssa.Value]bool)
 	walk = func(b, pred *ssa.BasicBlock, known map[ssa.Value]bool) {
 		// φ-nodes and negations of this block
@@ -1158,6 +1164,12 @@ func flagWalk(fn *ssa.Function, from, to *ssa.BasicBlock, visit func(b, pred *ss
 				e := x.Edges[pi]
 				phiVal[x] = e
 				if !isBoolType(x.Type()) {
+					// non-nil-ness: encoded in the same map under the φ itself (true = non-nil)
+					if nn0[e] || (known[e] && !isBoolType(e.Type())) {
+						nk[x] = true
+					} else {
+						delete(nk, x)
+					}
 					continue
 				}
 				if k, ok := e.(*ssa.Const); ok && k.Value != nil && k.Value.Kind() == constant.Bool {
@@ -1187,8 +1199,8 @@ func flagWalk(fn *ssa.Function, from, to *ssa.BasicBlock, visit func(b, pred *ss
 			return
 		}
 		seen[st] = true
-		if visit != nil {
-			visit(b, pred)
+		if visit != nil && !visit(b, pred) {
+			return // pruned by the caller
 		}
 		switch t := b.Instrs[len(b.Instrs)-1].(type) {
 		case *ssa.Return:
@@ -1206,6 +1218,14 @@ func flagWalk(fn *ssa.Function, from, to *ssa.BasicBlock, visit func(b, pred *ss
 				ret(t, kind)
 			}
 		case *ssa.If:
+			if x, trueIsNil, ok := nilTestOf(t.Cond); ok && b.Succs[0] != b.Succs[1] && !isBoolType(x.Type()) && (nn0[x] || nk[x]) {
+				if trueIsNil {
+					walk(b.Succs[1], b, nk)
+				} else {
+					walk(b.Succs[0], b, nk)
+				}
+				return
+			}
 			if v, ok := nk[t.Cond]; ok && b.Succs[0] != b.Succs[1] {
 				if v {
 					walk(b.Succs[0], b, nk)
